@@ -37,6 +37,11 @@ THEOREMS = {
             "Rot.C14_dated_exactly_one_file", "Rot.C14_dated_write_keeps_all_without_overwrite", "Rot.C14_dated_restart_leaves_files",
             "Rot.C14_dated_same_second_restart_clobbers", "Rot.C14_dated_backwards_restart_breaks_order",
             "Rot.C14_dated_backup_bound_across_restarts_fails",
+            "Rot.C14_dated_sequence", "Rot.C14_dated_untracked_untouched", "Rot.restart_dated_diskSeq_suffix",
+            # audit round (Props/C14More.lean): the sequence as an equation, named exclusions, the JSON sink's two sizes
+            "Rot.C14_index_sequence_eq", "Rot.write_dropped", "Rot.C14_index_nothing_dropped_without_overwrite",
+            "Rot.C14_junk_removed_by_cleanup", "Rot.C14_write_mode_without_cleanup_overwrites",
+            "Rot.C14_F30_json_counts_statement_size", "Rot.writeC_self",
             # rendered names for any base file name (Props/C14Render.lean)
             "Rot.C14_render_injective", "Rot.C14_render_collides_across_schemes", "Rot.C14_rendered_names_distinct_partial",
             "Rot.C14_scan_sees_rotated", "Rot.C14_F28_no_extension_scan_blind", "Rot.C14_F29_append_option_scan_blind",
@@ -50,7 +55,7 @@ THEOREMS = {
             "Obligations.rot_time_extraction_complete", "Obligations.rot_time_facts_hold", "Obligations.rot_advances_from_schedule",
             "Obligations.C15_extracted"],
 }
-MODULES = {"C14": ["QuillModel.Props.C14", "QuillModel.Props.C15Schedule", "QuillModel.Props.C14Dated", "QuillModel.Props.C14Render"], "C15": ["QuillModel.Props.C15", "QuillModel.Props.C15Schedule"]}
+MODULES = {"C14": ["QuillModel.Props.C14", "QuillModel.Props.C15Schedule", "QuillModel.Props.C14Dated", "QuillModel.Props.C14Render", "QuillModel.Props.C14More"], "C15": ["QuillModel.Props.C15", "QuillModel.Props.C15Schedule"]}
 OBLIG = {"C14": ["QuillModel.Obligations.RotSize"], "C15": ["QuillModel.Obligations.RotTime"]}
 
 C14_ORACLES = ("dup-id", "torn", "not-in-cur", "order", "not-suffix", "over-limit", "backup-bound", "backup-shrink", "ow-off-deleted")
